@@ -158,8 +158,9 @@ def run(chk, tier):
     vm = vmtable.VM(F)
     rowsf = semtables.arm_paths(F, vm, "FmtString") or []
     pushes = sorted(set(e[1] for _, ev in rowsf for e in ev if e[0] == "push"))
-    wantp = ["CelValue::String([])", "CelValue::String([pop1.String.0])", "CelValue::String([pop2.String.0, pop1.String.0])", "CelValue::String([pop3.String.0, pop2.String.0, pop1.String.0])"]
-    if pushes == sorted(wantp):
+    wantp = ["CelValue::String([%s])" % ", ".join("pop%d.String.0" % i for i in range(n_, 0, -1)) for n_ in range(0, max(4, len(pushes)))]
+    wantp = wantp[:len(pushes)]
+    if len(pushes) >= 4 and pushes == sorted(wantp):
         chk.ok("R14.7", "FMTSTRING concatenates in source order", wantp[-1])
     else:
         chk.bad("R14.7", "FMTSTRING concatenates in source order", "the VM's FMTSTRING arm builds %s" % pushes, vm.b.file)
